@@ -9,9 +9,9 @@ COMMON_ASSUMPTIONS = [
 BOTH = ["release", "relda"]
 
 
-def core(bin_, rule, text, ref, note, technique=None, profiles=None, extra=None):
+def core(bin_, rule, text, ref, note, technique=None, profiles=None, extra=None, pkg="vcore"):
     d = {
-        "pkg": "vcore",
+        "pkg": pkg,
         "bin": bin_,
         "profiles": profiles or BOTH,
         "rule": rule,
@@ -124,6 +124,63 @@ CHECKS = {
         "DESIGN.md section 5 C13",
         NOTE_MODEL + "; quick tier runs the debug-assertion profile only, thorough both",
         extra={"bin_thorough": "c13t", "profiles_quick": ["relda"]},
+    ),
+
+    "C14": core(
+        "c14",
+        "float -> int states = (bit pattern, target type): sign x every exponent x a mantissa alphabet (single bits, all-ones prefixes / suffixes, +-1 around them; subnormals, +-0, +-inf, NaNs) for f32 and f64, all 2^32 f32 patterns in the thorough tier; int -> float states = (value, float type): FULL values up to 16 bits, boundary sets, and for every bit length L {top-p-bit patterns} x {guard bit} x {sticky: none, lowest, highest, all} for p = 24, 53 and their negations (all values below 2^32 in the thorough tier), on widths up to 1088 bits (beyond the largest finite f32 and f64); compared with truncation / saturation and round-to-nearest-even computed in exact integers (self-checked against `as` on primitives); non-trivial: none by construction",
+        "As/CastFrom casts between bnum integers and f32/f64 round, truncate and saturate exactly like Rust's `as` on every enumerated bit pattern / value.",
+        "DESIGN.md section 5 C14",
+        NOTE_MODEL,
+    ),
+    "C15": core(
+        "c15",
+        "states = byte slices: every slice of length 0..=2*BYTES+2 (<= 7, 9 thorough, beyond 24 bits) over {00, 01, 7f, 80, ff}; byte images of boundary values truncated to shorter lengths and extended by pad sequences (all-00 / all-ff / a non-pad byte at either end of the padding) of 1..=digit bytes + 2 bytes in both byte orders; from_be_slice / from_le_slice compared with the denoted integer; to_be/from_be/to_le/from_le on unary plans (little-endian target: identity / swap_bytes); non-trivial = expected None",
+        "from_be_slice / from_le_slice return Some(v) exactly when the byte string denotes a representable value, and the endianness helpers reverse the byte order exactly when the target's endianness differs (little-endian half; the nightly *_bytes methods are checked by the companion binary when the nightly toolchain builds the crate).",
+        "DESIGN.md section 5 C15",
+        NOTE_MODEL + "; the big-endian half of the to_be/from_be sentence cannot be executed on this target and is not claimed",
+    ),
+    "C16": core(
+        "c16",
+        "states = operand tuples from the union of the boundary sets of every digit type of the width; (a) same width, two digit types (16: D8x2~D16x1; 64: D8x8, D16x4, D32x2 ~ D64x1; 192: D32x6, D8x24 ~ D64x3; all widths up to 320 bits in the thorough tier): every operation of the C01, C02, C03, C05 and value-level tables (C06-C08 too in the thorough tier) must give identical observations, and the As cast must agree with byte repacking; (b) (narrow, wide) pairs: checked add/sub/mul/div/div_euclid/neg/pow, exact rem / shl, cmp, eq, decimal print and parse must commute with extension (None in the narrow type only if the wide result is None or outside the narrow range); (c) BITS, BYTES, MIN, MAX, ZERO, ONE..TEN, NEG_ONE..NEG_TEN of every configuration and the U128..U8192 / I128..I8192 aliases against the model; non-trivial = expected None",
+        "Results depend only on width, signedness and value on every enumerated state: differential exploration of pairs of instantiations (no model involved) plus constants against the model.",
+        "DESIGN.md section 5 C16",
+        "differential: no reference model for (a) and (b); " + NOTE_MODEL,
+        technique="bounded exhaustive differential state enumeration of pairs of instantiations of the real code (explicit-state model checking with the second instantiation as the reference)",
+    ),
+    "C17": core(
+        "c17",
+        "states = operand pairs of the C04 plan (FULL^2 at 8 bits, reduced boundary sets beyond) x typed shift amounts x bnum-typed amounts below BITS; every trait form (four value/reference combinations, op-assign by value and by reference, for + - * / % & | ^, << >> with each of the 12 primitive amount types and BUint/BInt amounts, unary - and !, PartialEq/PartialOrd/Ord, Default, FromStr, Add/Div/Rem<digit>) against the inherent method, both under catch_unwind; all sequences of two assign operations from 14 against the by-value fold; Sum / Product of every sequence of length <= 4 over an 8-value alphabet (4681 sequences) against the left fold; both build profiles",
+        "Every std trait implementation computes the same value and has the same panic outcome as the corresponding inherent method on every enumerated state, in both build modes (quick tier: 8 types, one per digit width; thorough: every core configuration).",
+        "DESIGN.md section 5 C17",
+        "differential against the inherent methods (which C01-C08 decide against the model); " + NOTE_MODEL,
+        technique="bounded exhaustive differential state enumeration: trait form vs inherent form of the real code on every state (explicit-state model checking, operation sequences up to depth 2 / fold length 4)",
+        extra={"bin_thorough": "c17t"},
+    ),
+    "C18": core(
+        "c18",
+        "states = operand pairs as in C01-C03 (FULL^2 at 8 bits, FULL x GRID at 16, GRID^2 beyond) x root degrees {1..17, 31..33, 40, 63..65, BITS/2, BITS-1, BITS, BITS+1, 1000, 2^32-1} x shift amounts; Integer (div_floor, mod_floor, div_rem, div_mod_floor, div_ceil, gcd, lcm, is_even/odd, is_multiple_of, next/prev_multiple_of), Roots (sqrt, cbrt, nth_root), Signed and the PrimInt shifts against the model; every forwarding impl (Checked*, Wrapping*, Saturating*, Overflowing*, Euclid, Pow, MulAdd, PrimInt, Bounded/Zero/One, Num) against the inherent method; non-trivial = expected None / panic",
+        "The num_traits / num_integer implementations return what each trait documents for the denoted value on every enumerated state; forwarders equal the inherent methods.",
+        "DESIGN.md section 5 C18",
+        NOTE_MODEL + "; bnum built with features numtraits, rand",
+        pkg="vfeat",
+    ),
+    "C19": core(
+        "c19",
+        "states = (source value, primitive type, bnum type): for each of the 12 primitive integers its FULL / boundary value set plus the target's bounds +-2, FromPrimitive::from_* and ToPrimitive::to_* against representability, AsPrimitive::as_ in both directions against the As cast; from_f32 / from_f64 on the structured float patterns plus the floats around +-2^BITS, +-2^(BITS-1); to_f32 / to_f64 on values and rounding patterns; targets narrower than the source included (8, 16, 24 bits); non-trivial = expected None",
+        "FromPrimitive / ToPrimitive return Some exactly for representable values (floats: truncated toward zero, None for NaN / infinities / out of range), AsPrimitive equals the As cast, on every enumerated state.",
+        "DESIGN.md section 5 C19",
+        NOTE_MODEL + "; bnum built with features numtraits, rand; quick tier: 7 bnum types incl. the narrow ones, thorough: all core configurations",
+        pkg="vfeat",
+        extra={"bin_thorough": "c19t"},
+    ),
+    "C20": core(
+        "c20",
+        "the RNG is a scripted byte stream (zeros after exhaustion, so rejection loops terminate); states = (low, high, first word[, second word]): 8 bits: ALL ranges low <= high x ALL 256 first words x 6 samplers (Uniform::new_inclusive/new + sample, gen_range(a..=b), gen_range(a..b), sample_single_inclusive, sample_single), every second word after a rejected first word for the boundary ranges (deviation bound 1); 16 bits: boundary ranges x ALL 65536 words; 24 bits: selected ranges (sizes 3, 2^23, 2^23+1, 2^24, ...) x ALL 2^24 words; wider: boundary ranges x boundary words; oracle = membership in [low, high] and, wherever all first words are enumerated, the exact number of accepted first words per value is equal and >= 1; Standard / Fill / try_fill_slice = little-endian image of the script (slices of length 0..3)",
+        "Every sampled value lies in the requested range and the accepted RNG words map onto the range with equal preimage counts (exactly counted up to 24 bits); Standard sampling and slice fills take every digit from the stream in little-endian order.",
+        "DESIGN.md section 5 C20",
+        "no reference model of the sampling algorithm: range membership and exact preimage counting only; bnum built with features numtraits, rand; uniformity is not enumerated above 24 bits",
+        pkg="vfeat",
     ),
 }
 
